@@ -100,7 +100,10 @@ def gen_rt_case(rng):
         mask = "flex" if kind == "flex" else "NONE"
     if form == "masked" and mask in (None, "flex", "NONE"):
         form = "arg"
-    return rt_case(shape, rng.choice("CF"), form, mask, rng.random() < 0.5)
+    case = rt_case(shape, rng.choice("CF"), form, mask, rng.random() < 0.5)
+    if rng.random() < 0.12:
+        case["big"] = True   # int64 values beyond 2**53 (nanosecond time stamps and the like): not representable as float64
+    return case
 
 
 def all_rt_cases(max_size=9):
@@ -131,6 +134,8 @@ def malformed_rt_cases():
 def rt_payload(case):
     shape = tuple(case["shape"])
     data = np.arange(int(np.prod(shape)), dtype=float).reshape(shape) + 1
+    if case.get("big"):
+        data = (np.arange(int(np.prod(shape)), dtype=np.int64) + (2 ** 60 + 1)).reshape(shape)
     mask = py_mask(case["mask"])
     if case["form"] == "masked":
         x = np.ma.masked_array(data.copy(), mask=mask if isinstance(mask, np.ndarray) else np.ma.nomask)
@@ -166,12 +171,17 @@ def is_quant(x):
 
 
 def ints(a):
-    return [int(round(v)) for v in np.asarray(np.ma.getdata(a), dtype=float).reshape(-1).tolist()]
+    d = np.asarray(np.ma.getdata(a))
+    if np.issubdtype(d.dtype, np.integer):
+        return [int(v) for v in d.reshape(-1).tolist()]
+    return [int(round(v)) if np.isfinite(v) else None for v in np.asarray(d, dtype=float).reshape(-1).tolist()]
 
 
 def rt_model_request(case):
     shape = case["shape"]
     data = list(range(1, int(np.prod(shape)) + 1))
+    if case.get("big"):
+        data = [v + 2 ** 60 for v in data]
     payload = {"shape": shape, "data": data, "quantified": case["quantified"],
                "dmask": (case["mask"] if case["form"] == "masked" else None)}
     return {"op": "c18rt", "payload": payload, "order": case["order"],
@@ -219,9 +229,11 @@ def oracle_rt(case, impl):
     if "err" in impl:
         return ("compress and expand with the same mask and order succeed", {"error": impl.get("msg")})
     marr = mask_array(case["mask"], shape)
-    expect = [float(data[i]) for i in memory_order(shape, order) if not marr[i]]
+    exact = np.issubdtype(np.asarray(data).dtype, np.integer)   # integer payloads are compared as integers
+    num = (lambda v: int(v)) if exact else (lambda v: float(v))
+    expect = [num(data[i]) for i in memory_order(shape, order) if not marr[i]]
     c, r = impl["c"], impl["r"]
-    cv = np.asarray(np.ma.getdata(mag(c)), dtype=float).reshape(-1).tolist()
+    cv = [num(v) for v in np.asarray(np.ma.getdata(mag(c))).reshape(-1).tolist()]
     if cv != expect:
         return ("compressed data = the unmasked values in the requested memory order",
                 {"compressed": cv, "expected": expect})
@@ -239,9 +251,9 @@ def oracle_rt(case, impl):
                     {"mask": np.ma.getmaskarray(rm).tolist(), "expected": marr.tolist()})
     rd = np.ma.getdata(rm)
     for i in memory_order(shape, order):
-        if not marr[i] and float(rd[i]) != float(data[i]):
+        if not marr[i] and num(rd[i]) != num(data[i]):
             return ("every unmasked value returns to its original position",
-                    {"index": list(i), "value": float(rd[i]), "original": float(data[i])})
+                    {"index": list(i), "value": num(rd[i]), "original": num(data[i])})
     return None
 
 
